@@ -10,6 +10,9 @@ CHECKS = {
     'C19': dict(level='exploration', ref='7 C19', technique='TLA+ operator Load over tagged YAML values (Config.tla: three-valued verdict, normal form; totality checked by TLC; cases via JsonSerialize) as oracle for Configuration(...)',
                 text='TLC evaluates Load on a base dictionary with every single perturbation of every documented key at connection, auth and protect-entry level (valid alternatives, missing, ill-typed, unknown, out of range) and top-level shapes; each case is loaded by the real Configuration: verdict ok => loads to exactly the normal form (algorithms in order, defaults, no ENCR for AH, NO_ESN, selectors, ports, protocol, mode, lifetimes, DPD, typed identities, credentials), err => ConfigurationError, either => one of both; pairs of perturbations are judged on the outcome class; any other exception is a violation.',
                 note='getaddrinfo served by the harness; integers / booleans where an address or identity is expected are "either" (observation O-6).'),
+    'C20': dict(level='exploration', ref='7 C20', technique='runtime monitor (NoLeak) over the histories generated from the TLA+ specifications: every transition of Ike.tla scenarios, failure scenarios, hostile schedules of MainLoop.tla',
+                text='Every log record with level >= INFO and every traceback printed to stderr during the replayed histories (handshakes with retries, adversary injections, wrong credentials / identities / methods, refusals, kernel errors, hostile input through main_loop) is searched for every secret the harness knows (PSKs, private key, IKE key rings, SKEYSEED, CHILD_SA keys as seen by the kernel model, DH secrets) in raw, hex, base64 and repr form; a positive control proves the detector sees the material in a verbose run.',
+                note='the specification contributes the coverage of histories; secrets are tracked by observers installed from outside.'),
     'C01': dict(level='model_checking', ref='7 C01', technique='TLA+ model (Ike.tla: SameIkeKeys, Mirror, KEYMAT halves) + TLC + replay of every transition; configuration matrix judged by an independent wire oracle',
                 text=IKE + '; in addition a matrix of real negotiations (every IKE suite; ESP/AH, PFS, modes, IPv4/IPv6, PSK/RSA, preference orders; rekey histories) judged by an oracle that derives all keys from the wire values and DH private scalars and compares both kernels field by field.',
                 note='AES/SHA/OpenSSL DH primitives trusted; kernel ABI taken from <linux/xfrm.h> of this image; bounds per scenario in the evidence.'),
@@ -46,6 +49,9 @@ CHECKS = {
     'C13': dict(level='model_checking', ref='7 C13', technique='TLA+ timer model IkeTimers.tla (relative deadlines, sweep of main_loop, loss / crash at any step) + TLC + replay under a virtual clock',
                 text='TLC checks Budget, SpacingFine / SpacingUniform (per schedule class), CrashBound, NoRetxAfterAnswer, TimersFire on IkeTimers.tla for every start kind (idle, each request kind, retries after INVALID_KE_PAYLOAD / COOKIE); every transition (fine and uniform schedules) resp. simulated behaviours (mixed schedules) are executed on the real code under a virtual clock through the timer part of main_loop: state, counters, all relative deadlines, transmission gaps and byte identity of every retransmission are compared. Plus: two IKE_SAs of one connection retransmitting concurrently; built-in constants with a dead peer; lifetime jitter bounds.',
                 note='spacing asserted per schedule class (observation O-9); DPD / lifetime scaled down via the configuration; peer abstracted to answer / lose / crash.'),
+    'C17': dict(level='model_checking', ref='7 C17', technique='TLA+ process model MainLoop.tla (NeverCrashed, BackToSelect, StillServes under fairness) + TLC; every schedule of the bounded model and simulated longer ones run through the real main_loop under scripted select / sockets',
+                text='TLC checks the loop model (hostile event kinds at any moment of a legitimate session); every schedule with one (thorough: two) hostile event(s) and simulation-mode schedules with up to four are executed through the real IkeSaController.main_loop: scripted select, UDP / control / XFRM sockets, a legitimate peer driven in parallel, send failures injected; judged: the loop never raises, every event stays within an executed-line budget, the legitimate session completes, the status query is answered.',
+                note='hostile kinds are instantiated by concrete datagrams / netlink messages built for the current state of the session; tampering with the legitimate peer\'s cleartext IKE_SA_INIT is an active attack (C02), not noise.'),
     'C18': dict(level='model_checking', ref='7 C18', technique='TLA+ operator specification Cookie.tla (properties as ASSUME over the universe, vectors via JsonSerialize) + Ike.tla cookie scenario (action property CookieFirst) + TLC + replay',
                 text='TLC checks CookieFirst / Bound / RetryAccepted on Cookie.tla over all half-open counts around the threshold x (SPI, nonce, address) x cookie lists and writes the cases as vectors; each vector is built concretely (third endpoint for the address binding) and reply kind, DH operations and table growth are compared. ' + IKE + ' (scenario init_cookie: DH counters per step, duplicate COOKIE responses).',
                 note='cookies are obtained black-box from an armed responder; a right cookie behind a wrong one is not constrained by the property; deterministic cookie secret in the closed world.'),
